@@ -515,3 +515,404 @@ func resolveLit(fn *FuncInfo, e ast.Expr) *ast.FuncLit {
 	}
 	return nil
 }
+
+func init() {
+	register(&Rule{ID: "R12.filters-never-stop", Props: []string{"C12", "C11"}, Floor: 3,
+		Text: "a filter decides whether an object is reported, never whether the iteration continues: on every non-error return, scanWriter.globMatch and scanWriter.testObject report keepGoing = true (constant true, or a variable whose every definition is true or such a result), and scanWriter.pushObject stops the iteration only with an error, when numberItems reached the limit, or by the COUNT comparison count < limit",
+		Run:  ruleFiltersNeverStop})
+}
+
+// trueValued: e evaluates to true on every execution: the constant, or a variable all of whose
+// definitions in fn are true-valued, or result k of a call to a function whose k-th result is always true.
+func trueValued(c *Ctx, fn *FuncInfo, e ast.Expr, seen map[string]bool) bool {
+	info := fn.Info()
+	e = ast.Unparen(e)
+	if boolConst(info, e) == '1' {
+		return true
+	}
+	id, ok := e.(*ast.Ident)
+	if !ok {
+		return false
+	}
+	obj := info.ObjectOf(id)
+	if obj == nil {
+		return false
+	}
+	ndefs := 0
+	allTrue := true
+	ast.Inspect(fn.Decl, func(n ast.Node) bool {
+		switch x := n.(type) {
+		case *ast.AssignStmt:
+			for i, l := range x.Lhs {
+				lid, ok := ast.Unparen(l).(*ast.Ident)
+				if !ok || info.ObjectOf(lid) != obj {
+					continue
+				}
+				ndefs++
+				switch {
+				case len(x.Lhs) == len(x.Rhs):
+					if !trueValued(c, fn, x.Rhs[i], seen) {
+						allTrue = false
+					}
+				case len(x.Rhs) == 1:
+					call, ok := ast.Unparen(x.Rhs[0]).(*ast.CallExpr)
+					if !ok {
+						allTrue = false
+						break
+					}
+					g := callee(info, call)
+					gi := c.FuncOf(g)
+					if g == nil || gi == nil || !resultAlwaysTrue(c, gi, i, seen) {
+						allTrue = false
+					}
+				default:
+					allTrue = false
+				}
+			}
+		case *ast.ValueSpec:
+			for i, nm := range x.Names {
+				if info.ObjectOf(nm) == obj && len(x.Values) > 0 {
+					ndefs++
+					if i >= len(x.Values) || !trueValued(c, fn, x.Values[i], seen) {
+						allTrue = false
+					}
+				} else if info.ObjectOf(nm) == obj {
+					ndefs++
+					allTrue = false // zero value false
+				}
+			}
+		case *ast.RangeStmt:
+			for _, kv := range []ast.Expr{x.Key, x.Value} {
+				if kid, ok := kv.(*ast.Ident); ok && info.ObjectOf(kid) == obj {
+					ndefs++
+					allTrue = false
+				}
+			}
+		}
+		return true
+	})
+	// a named result or parameter without definitions is not known to be true
+	return ndefs > 0 && allTrue
+}
+
+// resultAlwaysTrue: on every return of fn that does not carry a non-nil error, result k is true-valued.
+func resultAlwaysTrue(c *Ctx, fn *FuncInfo, k int, seen map[string]bool) bool {
+	key := fmt.Sprintf("%s#%d", funcName(fn.Obj), k)
+	if seen[key] {
+		return true // optimistic on recursion (greatest fixpoint)
+	}
+	seen[key] = true
+	info := fn.Info()
+	ok := true
+	sig := fn.Obj.Type().(*types.Signature)
+	inspectNoLit(fn.Decl.Body, func(n ast.Node) bool {
+		r, isRet := n.(*ast.ReturnStmt)
+		if !isRet {
+			return true
+		}
+		if returnsError(info, fn, r) {
+			return true
+		}
+		if len(r.Results) == 0 {
+			// bare return: the named result
+			if sig.Results().Len() > k && fn.Decl.Type.Results != nil {
+				var names []*ast.Ident
+				for _, f := range fn.Decl.Type.Results.List {
+					names = append(names, f.Names...)
+				}
+				if k < len(names) && trueValued(c, fn, names[k], seen) {
+					return true
+				}
+			}
+			ok = false
+			return true
+		}
+		if len(r.Results) != sig.Results().Len() {
+			ok = false
+			return true
+		}
+		if !trueValued(c, fn, r.Results[k], seen) {
+			ok = false
+		}
+		return true
+	})
+	return ok
+}
+
+func ruleFiltersNeverStop(c *Ctx) {
+	pk := "internal/server"
+	gm := c.Func(pk, "scanWriter", "globMatch")
+	to := c.Func(pk, "scanWriter", "testObject")
+	po := c.Func(pk, "scanWriter", "pushObject")
+	if gm == nil || to == nil || po == nil {
+		c.und("anchors", 0, "scanWriter.globMatch / testObject / pushObject not found")
+		return
+	}
+	resIdx := func(fn *FuncInfo, name string) int {
+		i := 0
+		if fn.Decl.Type.Results != nil {
+			for _, f := range fn.Decl.Type.Results.List {
+				for _, nm := range f.Names {
+					if nm.Name == name {
+						return i
+					}
+					i++
+				}
+			}
+		}
+		return -1
+	}
+	for _, fn := range []*FuncInfo{gm, to} {
+		k := resIdx(fn, "keepGoing")
+		if k < 0 {
+			c.und(fn.Obj.Name()+"/keep-going", fn.Decl.Pos(), "result keepGoing not found")
+			continue
+		}
+		c.check(resultAlwaysTrue(c, fn, k, map[string]bool{}), fn.Obj.Name()+"/keep-going", fn.Decl.Pos(),
+			"keepGoing is true on every non-error return", "a filter result can end the iteration (keepGoing is not always true on a non-error return): objects after the first match, or after the first mismatch, are never examined, so MATCH/WHERE results are incomplete and disagree with COUNT")
+	}
+	// pushObject: classify every return
+	info := po.Info()
+	fg := newFlowGraph(info, po.Decl.Body)
+	items := c.Field(pk, "scanWriter", "numberItems")
+	limit := c.Field(pk, "scanWriter", "limit")
+	count := c.Field(pk, "scanWriter", "count")
+	okAll := true
+	var at token.Pos
+	why := ""
+	for _, r := range fg.Returns() {
+		rs := r.Node.(*ast.ReturnStmt)
+		if returnsError(info, po, rs) || len(rs.Results) == 0 {
+			if len(rs.Results) == 0 {
+				okAll, at, why = false, rs.Pos(), "bare return"
+			}
+			continue
+		}
+		e := ast.Unparen(rs.Results[0])
+		if trueValued(c, po, e, map[string]bool{}) {
+			continue
+		}
+		if be, ok := e.(*ast.BinaryExpr); ok && be.Op == token.LSS && selField(info, be.X) == count && selField(info, be.Y) == limit {
+			continue
+		}
+		atLimit := false
+		for _, f := range fg.DominatingFacts(r) {
+			if be, ok := ast.Unparen(f.E).(*ast.BinaryExpr); ok && !f.Neg && be.Op == token.EQL &&
+				(selField(info, be.X) == items && selField(info, be.Y) == limit || selField(info, be.X) == limit && selField(info, be.Y) == items) {
+				atLimit = true
+			}
+		}
+		if atLimit && boolConst(info, e) == '0' {
+			continue
+		}
+		okAll, at, why = false, rs.Pos(), exprStr(e)
+	}
+	if at == token.NoPos {
+		at = po.Decl.Pos()
+	}
+	c.check(okAll, "pushObject/stop-reasons", at, "pushObject stops the iteration only on error, at numberItems == limit, or by count < limit",
+		"pushObject can stop the iteration for another reason ("+why+"): remaining objects that satisfy the filters are not reported")
+}
+
+func init() {
+	register(&Rule{ID: "R12.far-limit-covers-prefix", Props: []string{"C12"}, Floor: 4,
+		Text: "in glob.Parse the limit on the far side of the literal prefix (Limits[1] ascending, Limits[0] descending) is greater than every string that starts with the prefix: every value it receives is the prefix with its last byte incremented, under a guard that this byte is not 0xFF; a value of the form prefix+byte(c) bounds only extensions whose next byte is <= c and is reported",
+		Run:  ruleFarLimit})
+}
+
+func ruleFarLimit(c *Ctx) {
+	fn := c.Func("internal/glob", "", "Parse")
+	if fn == nil {
+		c.und("anchors", 0, "glob.Parse not found")
+		return
+	}
+	info := fn.Info()
+	fg := newFlowGraph(info, fn.Decl.Body)
+	// the bool parameter that selects the direction
+	var descObj types.Object
+	for _, p := range fn.Decl.Type.Params.List {
+		for _, nm := range p.Names {
+			if b, ok := info.ObjectOf(nm).Type().Underlying().(*types.Basic); ok && b.Kind() == types.Bool {
+				descObj = info.ObjectOf(nm)
+			}
+		}
+	}
+	// g.Limits = []string{x, y}
+	var lim0, lim1 types.Object
+	var limPos token.Pos
+	inspectNoLit(fn.Decl.Body, func(n ast.Node) bool {
+		as, ok := n.(*ast.AssignStmt)
+		if !ok || len(as.Lhs) != 1 || len(as.Rhs) != 1 {
+			return true
+		}
+		se, ok := ast.Unparen(as.Lhs[0]).(*ast.SelectorExpr)
+		if !ok || se.Sel.Name != "Limits" {
+			return true
+		}
+		cl, ok := ast.Unparen(as.Rhs[0]).(*ast.CompositeLit)
+		if !ok || len(cl.Elts) != 2 {
+			return true
+		}
+		i0, ok0 := ast.Unparen(cl.Elts[0]).(*ast.Ident)
+		i1, ok1 := ast.Unparen(cl.Elts[1]).(*ast.Ident)
+		if ok0 && ok1 {
+			lim0, lim1, limPos = info.ObjectOf(i0), info.ObjectOf(i1), as.Pos()
+		}
+		return true
+	})
+	if descObj == nil || lim0 == nil || lim1 == nil {
+		c.und("anchors", fn.Decl.Pos(), "direction parameter or the store g.Limits = []string{x, y} not found")
+		return
+	}
+	// prefix-valued variables: assigned pattern[:n] or another prefix variable
+	prefixVars := map[types.Object]bool{}
+	for changed := true; changed; {
+		changed = false
+		inspectNoLit(fn.Decl.Body, func(n ast.Node) bool {
+			as, ok := n.(*ast.AssignStmt)
+			if !ok || len(as.Lhs) != 1 || len(as.Rhs) != 1 {
+				return true
+			}
+			l, ok := as.Lhs[0].(*ast.Ident)
+			if !ok || prefixVars[info.ObjectOf(l)] {
+				return true
+			}
+			r := ast.Unparen(as.Rhs[0])
+			isP := false
+			if sl, ok := r.(*ast.SliceExpr); ok && sl.Low == nil && sl.High != nil {
+				if id, ok := ast.Unparen(sl.X).(*ast.Ident); ok {
+					if _, isParam := info.ObjectOf(id).(*types.Var); isParam && info.ObjectOf(id).Type().String() == "string" && info.ObjectOf(id).Parent() == info.Scopes[fn.Decl.Type] {
+						isP = true
+					}
+				}
+			}
+			if id, ok := r.(*ast.Ident); ok && prefixVars[info.ObjectOf(id)] {
+				isP = true
+			}
+			if isP {
+				prefixVars[info.ObjectOf(l)] = true
+				changed = true
+			}
+			return true
+		})
+	}
+	// classify string(append([]byte(X[:k]), X[k]+1)) and string(append([]byte(X), c))
+	type form struct {
+		kind string // "succ", "append", "other"
+		x    types.Object
+		k    ast.Expr
+		c    string
+	}
+	classify := func(e ast.Expr) form {
+		conv, ok := ast.Unparen(e).(*ast.CallExpr)
+		if !ok || len(conv.Args) != 1 {
+			return form{kind: "other"}
+		}
+		if tv, ok := info.Types[conv.Fun]; !ok || !tv.IsType() {
+			return form{kind: "other"}
+		}
+		ap, ok := ast.Unparen(conv.Args[0]).(*ast.CallExpr)
+		if !ok || len(ap.Args) != 2 || ap.Ellipsis.IsValid() {
+			return form{kind: "other"}
+		}
+		if id, ok := ast.Unparen(ap.Fun).(*ast.Ident); !ok || id.Name != "append" {
+			return form{kind: "other"}
+		}
+		bc, ok := ast.Unparen(ap.Args[0]).(*ast.CallExpr) // []byte(...)
+		if !ok || len(bc.Args) != 1 {
+			return form{kind: "other"}
+		}
+		switch base := ast.Unparen(bc.Args[0]).(type) {
+		case *ast.Ident:
+			if tv, ok := info.Types[ap.Args[1]]; ok && tv.Value != nil {
+				return form{kind: "append", x: info.ObjectOf(base), c: tv.Value.String()}
+			}
+		case *ast.SliceExpr:
+			id, ok := ast.Unparen(base.X).(*ast.Ident)
+			if !ok || base.Low != nil || base.High == nil {
+				break
+			}
+			// second argument X[k]+1 with the same k as the slice bound
+			be, ok := ast.Unparen(ap.Args[1]).(*ast.BinaryExpr)
+			if !ok || be.Op != token.ADD {
+				break
+			}
+			if tv, ok := info.Types[be.Y]; !ok || tv.Value == nil || tv.Value.String() != "1" {
+				break
+			}
+			ix, ok := ast.Unparen(be.X).(*ast.IndexExpr)
+			if !ok {
+				break
+			}
+			xid, ok := ast.Unparen(ix.X).(*ast.Ident)
+			if ok && info.ObjectOf(xid) == info.ObjectOf(id) && exprStr(ix.Index) == exprStr(base.High) {
+				return form{kind: "succ", x: info.ObjectOf(id), k: ix.Index}
+			}
+		}
+		return form{kind: "other"}
+	}
+	for _, dir := range []struct {
+		name string
+		desc bool
+		far  types.Object
+	}{{"asc", false, lim1}, {"desc", true, lim0}} {
+		n := 0
+		for _, l := range fg.Find(func(x ast.Node) bool {
+			as, ok := x.(*ast.AssignStmt)
+			if !ok || len(as.Lhs) != 1 || len(as.Rhs) != 1 {
+				return false
+			}
+			id, ok := as.Lhs[0].(*ast.Ident)
+			return ok && info.ObjectOf(id) == dir.far
+		}) {
+			as := l.Node.(*ast.AssignStmt)
+			// only stores on this direction's paths
+			onDir := false
+			var ffFact *bool // true: X[k] == 0xFF known, false: X[k] != 0xFF known
+			var ffX types.Object
+			var ffK string
+			for _, f := range fg.DominatingFacts(l) {
+				if id, ok := ast.Unparen(f.E).(*ast.Ident); ok && info.ObjectOf(id) == descObj && f.Neg != dir.desc {
+					onDir = true
+				}
+				if be, ok := ast.Unparen(f.E).(*ast.BinaryExpr); ok && (be.Op == token.EQL || be.Op == token.NEQ) {
+					if ix, ok := ast.Unparen(be.X).(*ast.IndexExpr); ok {
+						if tv, ok := info.Types[be.Y]; ok && tv.Value != nil && tv.Value.String() == "255" {
+							if xid, ok := ast.Unparen(ix.X).(*ast.Ident); ok {
+								isFF := be.Op == token.EQL && !f.Neg || be.Op == token.NEQ && f.Neg
+								ffFact, ffX, ffK = &isFF, info.ObjectOf(xid), exprStr(ix.Index)
+							}
+						}
+					}
+				}
+			}
+			if !onDir {
+				continue
+			}
+			r := ast.Unparen(as.Rhs[0])
+			// the initial prefix itself
+			if sl, ok := r.(*ast.SliceExpr); ok && sl.Low == nil {
+				_ = sl
+				continue
+			}
+			if id, ok := r.(*ast.Ident); ok && prefixVars[info.ObjectOf(id)] {
+				continue
+			}
+			n++
+			f := classify(r)
+			switch {
+			case f.kind == "succ" && prefixVars[f.x] && ffFact != nil && !*ffFact && ffX == f.x && ffK == exprStr(f.k):
+				c.ok("Parse/"+dir.name+"/successor", as.Pos(), true, "far limit = prefix with its last byte incremented, under the guard that the byte is not 0xFF")
+			case f.kind == "succ" && prefixVars[f.x]:
+				c.bad("Parse/"+dir.name+"/successor-unguarded", as.Pos(), "the far limit increments the last prefix byte without a dominating guard that it is not 0xFF: 0xFF+1 wraps to 0x00 and the limit falls below the prefix")
+			case f.kind == "append" && prefixVars[f.x]:
+				c.bad("Parse/"+dir.name+"/append-"+f.c, as.Pos(), "the far limit is prefix+byte(%s): it bounds only ids whose next byte after the prefix is <= %s, so an id that starts with the prefix and continues with a larger byte lies outside the scanned range and is never matched (for a prefix ending in 0xFF the successor is the prefix without its trailing 0xFF bytes, last byte incremented; none if all bytes are 0xFF)", f.c, f.c)
+			default:
+				c.und("Parse/"+dir.name+"/form", as.Pos(), "far limit receives %s: not one of the recognised forms (prefix successor, prefix+byte)", exprStr(r))
+			}
+		}
+		if n == 0 {
+			c.bad("Parse/"+dir.name+"/far-limit", limPos, "on the %s path the far limit is never moved beyond the literal prefix", dir.name)
+		}
+	}
+}
